@@ -16,6 +16,7 @@ register-before-query in the pull loop) are read from the source on every run (`
 for each alternative a concrete schedule that loses a wake-up is exhibited.
 -/
 import Mmmbbb.Proofs.Notify
+import Mmmbbb.Proofs.Wakes
 namespace Mmmbbb.Notify
 
 /-- the source has the configuration the invariant needs (re-checked on every run against the
@@ -200,3 +201,34 @@ example : ((run Cfg.ofSource demo [.waiter 0, .waiter 0, .waiter 0, .waiter 0, .
     .waiter 0, .waiter 0, .waiter 0]).waiter 0).pc = 5 := by decide
 
 end Mmmbbb.Notify
+
+/-! ### the store side: the writers named by the property wake every subscription whose rows they touch
+
+`covers` above is a hypothesis about writers.  For the store model (`Model/Actions.lean`, the one the
+correspondence runs compare with the implementation operation by operation, wake set included) it is
+discharged here: each of these operations leaves the delivery rows of every subscription *outside*
+its wake set exactly as they were and adds no row there, so nothing can have become deliverable on a
+subscription that is not woken.  (Dead-lettering wakes the source subscription and the forward
+targets by construction: `deadLetter` returns `forward targets ++ [source]`, `deliverAll_shape`.) -/
+namespace Mmmbbb
+
+theorem C10_wakes_cover_publish {db : Db} {t : Topic} {now : Time} {pm : PubMsg} {db' : Db} {w : List Id}
+    (h : publishOne db t now pm = .ok (db', w)) : SameUnwoken w db.dels db'.dels := publishOne_unwoken h
+
+theorem C10_wakes_cover_ack {db : Db} {now : Time} {ids : List Id} {o : TxOut Nat} (h : ack db now ids = .ok o) :
+    SameUnwoken o.wakes db.dels o.db.dels := ack_unwoken h
+
+theorem C10_wakes_cover_zero_deadline {db : Db} {now : Time} {ids : List Id} {Δ : Int} (hΔ : Δ ≤ 0) {o : TxOut Nat}
+    (h : delay db now ids Δ = .ok o) : SameUnwoken o.wakes db.dels o.db.dels := delay0_unwoken hΔ h
+
+theorem C10_wakes_cover_seek_time {db : Db} {now : Time} {sub : String} {T : Time} {o : TxOut (Nat × Nat)}
+    (h : seekTime db now sub T = .ok o) :
+    ∃ s, db.liveSubByName sub = some s ∧ SameUnwoken [s.id] db.dels o.db.dels ∧ (o.wakes = [s.id] ∨ o.db.dels = db.dels) :=
+  seekTime_unwoken h
+
+theorem C10_wakes_cover_seek_snapshot {db : Db} {now : Time} {sub snap : String} {o : TxOut (Nat × Nat)}
+    (h : seekSnap db now sub snap = .ok o) :
+    ∃ s, db.liveSubByName sub = some s ∧ SameUnwoken [s.id] db.dels o.db.dels ∧ (o.wakes = [s.id] ∨ o.db.dels = db.dels) :=
+  seekSnap_unwoken h
+
+end Mmmbbb
